@@ -25,7 +25,7 @@ var R = hx.NewRecorder("C15", "cases = (endpoint kind: GMSSL client | GMSSL-only
 	"oracle = Handshake() returns (quiescence of the in-memory transport turns waiting into EOF; a read-after-EOF counter catches spinning), returns an error for every true deviation, HandshakeComplete stays false, no panic; legal variations (fragmented or coalesced messages, unknown ticket) must still succeed; non-trivial = deviation applied after at least one valid message or in the first message; distinct by hash of the plan")
 
 func TestMain(m *testing.M) {
-	R.Require("junk_certificate_verify", "jcv_vers:300", "ecdhe_ske", "hello_ext_sweep", "dev:big_record", "replay_deep:gmclient", "replay_deep:tlsclient", "replay_deep:gmserver", "replay_deep:tlsserver", "replay_deep:autoserver", "replay_control", "replay:omit_msg", "replay:hello_ext", "replay:swap_msgs", "hello_vector_lengths", "dev:cke_ciphertext_byte", "dev:cert_list", "tls_resumption_deviation", "dev:inner_len", "dev:alert_flood", "inner_length_sweep", "peer_pressed_on_after_alert", "endpoint:gmclient", "endpoint:gmserver", "endpoint:autoserver", "endpoint:tlsserver", "endpoint:tlsclient", "vers_sweep_done", "dev:omit", "dev:repeat", "dev:retype", "dev:reorder", "dev:truncate", "dev:len_field", "dev:split", "dev:coalesce",
+	R.Require("junk_certificate_verify", "jcv_vers:300", "ecdhe_ske", "hello_ext_sweep", "dev:big_record", "replay_deep:gmclient", "replay_deep:tlsclient", "replay_deep:gmserver", "replay_deep:tlsserver", "replay_deep:autoserver", "replay_control", "replay:omit_msg", "replay:hello_ext", "replay:swap_msgs", "hello_vector_lengths", "dev:cke_ciphertext_byte", "dev:cert_list", "tls_resumption_deviation", "dev:inner_len", "dev:trailing", "dev:alert_flood", "inner_length_sweep", "peer_pressed_on_after_alert", "endpoint:gmclient", "endpoint:gmserver", "endpoint:autoserver", "endpoint:tlsserver", "endpoint:tlsclient", "vers_sweep_done", "dev:omit", "dev:repeat", "dev:retype", "dev:reorder", "dev:truncate", "dev:len_field", "dev:split", "dev:coalesce",
 		"dev:oversize", "dev:ccs_early", "dev:appdata_early", "dev:alert_fatal", "dev:unknown_record", "dev:close", "dev:record_overflow", "replay_perturbed", "legal_must_succeed", "cke_1byte", "hostile_suites")
 	for d := 0; d <= 5; d++ {
 		R.Require(fmt.Sprintf("depth:%d", d))
@@ -43,7 +43,7 @@ type deviation struct {
 var serverSteps = []string{"ServerHello", "Certificate", "ServerKeyExchange", "CertificateRequest", "ServerHelloDone", "ChangeCipherSpec", "Finished"}
 var clientSteps = []string{"ClientHello", "ClientCertificate", "ClientKeyExchange", "CertificateVerify", "ChangeCipherSpec", "Finished"}
 
-var devKinds = []string{"omit", "repeat", "retype", "reorder", "truncate", "truncate_fixlen", "len_field", "split", "coalesce", "oversize", "ccs_early", "appdata_early", "alert_fatal", "alert_warning", "unknown_record", "unknown_hstype", "close", "record_overflow", "inner_byte", "cert_list", "big_record", "inner_len", "inner_len", "alert_flood"}
+var devKinds = []string{"omit", "repeat", "retype", "reorder", "truncate", "truncate_fixlen", "len_field", "split", "coalesce", "oversize", "ccs_early", "appdata_early", "alert_fatal", "alert_warning", "unknown_record", "unknown_hstype", "close", "record_overflow", "inner_byte", "cert_list", "big_record", "inner_len", "inner_len", "alert_flood", "trailing", "trailing"}
 
 func hsRecord(data []byte) []byte {
 	return append([]byte{22, 1, 1, byte(len(data) >> 8), byte(len(data))}, data...)
@@ -230,6 +230,20 @@ func planFor(d deviation) (*rgmssl.Plan, *bool, bool, string) {
 			}
 			body = append([]byte{byte(len(body) >> 16), byte(len(body) >> 8), byte(len(body))}, body...)
 			o.Data = append([]byte{11, byte(len(body) >> 16), byte(len(body) >> 8), byte(len(body))}, body...)
+			return []rgmssl.Out{o}
+		case "trailing":
+			// 1..4 stray bytes behind the last field of the message, inside a handshake header that accounts for them: every
+			// GM/T 0024 handshake message has an exact layout, nothing may follow it
+			if !isHS {
+				*fired = false
+				return []rgmssl.Out{o}
+			}
+			for i := 0; i <= d.K%4; i++ {
+				data = append(data, d.Val+byte(i))
+			}
+			n := len(data) - 4
+			data[1], data[2], data[3] = byte(n>>16), byte(n>>8), byte(n)
+			o.Data = data
 			return []rgmssl.Out{o}
 		case "inner_len":
 			// one length or count field INSIDE the message body is set to another value while the bytes around it stay: the
@@ -463,6 +477,40 @@ func TestC15_InnerLengthSweep(t *testing.T) {
 					judge(t, r, false, true, fmt.Sprintf("inner length sweep: endpoint=%s step=%s field %d of %d, candidate %d, %d CA names | endpoint: hs=%v | scripted peer: err=%v log=%v", ep, step, k%nf, nf, k/nf, ncas, r.GM.HSErr, r.PeerErr, r.Peer.Log))
 					n++
 				}
+			}
+		}
+		// ... and 1..4 stray bytes behind every handshake message of the scripted side
+		all := serverSteps
+		if ep != "gmclient" {
+			all = clientSteps
+		}
+		for _, step := range all {
+			if step == "ChangeCipherSpec" {
+				continue
+			}
+			for k := 0; k < 4; k++ {
+				d := deviation{Kind: "trailing", Step: step, K: k, Val: byte(17 * k)}
+				plan, fired, _, _ := planFor(d)
+				plan.IgnoreAlerts = k%2 == 1
+				seed := fmt.Sprint("trl", ep, step, k)
+				var r *tlsx.ScriptedResult
+				if ep == "gmclient" {
+					cc := tlsx.GMClient(p, "c"+seed)
+					cc.Certificates = []gmtls.Certificate{p.Client.TLS}
+					r = tlsx.RunAgainstScriptedServer(cc, rgmssl.ServerOpts{ID: p.ServerIdentity(), RequestCert: true}, plan, seed, []byte("x"))
+				} else {
+					sc := tlsx.GMServer(p, "s"+seed)
+					if ep == "autoserver" {
+						sc = tlsx.AutoServer(p, p.RSASrv, "s"+seed)
+					}
+					sc.ClientAuth, sc.ClientCAs = gmtls.RequireAndVerifyClientCert, p.RootsSM2
+					r = tlsx.RunAgainstScriptedClient(sc, rgmssl.ClientOpts{Suites: []uint16{tlsx.GMECCSM4GCMSM3}, Cert: p.Client.DER, CertD: p.Client.SM2D}, plan, seed, []byte("x"))
+				}
+				if !*fired {
+					t.Fatalf("harness: the trailing-bytes deviation did not fire for %s/%s", ep, step)
+				}
+				judge(t, r, false, true, fmt.Sprintf("trailing bytes sweep: endpoint=%s step=%s, %d stray bytes | endpoint: hs=%v | scripted peer: err=%v log=%v", ep, step, k+1, r.GM.HSErr, r.PeerErr, r.Peer.Log))
+				n++
 			}
 		}
 		R.Case(true, hx.HashKey("ils", ep), "inner_length_sweep", "endpoint:"+ep)
